@@ -177,6 +177,64 @@ def lean_lemmas(run):
               '(pooled = mean of normalised vectors), not over code')
 
 
+def tier_b(run, thorough):
+    """engine B: the real pool_rdm functions (util.pooling and util.inference_util) on symbolic dissimilarities, with and without
+    a commonly missing entry: for ALL real values the pooled RDM is the mean of the data vectors ('euclid') resp. the mean of
+    the vectors normalised to unit root-mean-square over their available entries ('cosine') -- the POOLING CONTRACT over which
+    the Lean lemmas pooled_optimal / cos_scale_invariant are stated -- and NaN exactly at the missing entry"""
+    import numpy as np
+    import sympy as sp
+    from vf.symrun.core import symarray, patched_np, identical, OVERRIDES_USED, guard
+    from rsatoolbox.rdm import RDMs
+    import rsatoolbox.util.pooling as pl
+    import rsatoolbox.util.inference_util as iu
+    fails = []
+    n_eval = 0
+    shapes = [(2, 3, 3), (3, 3, 3), (2, 6, 4)] + ([(4, 6, 4), (3, 10, 5)] if thorough else [])
+    mods = ['rsatoolbox.util.pooling', 'rsatoolbox.util.inference_util', 'rsatoolbox.rdm.rdms', 'rsatoolbox.util.rdm_utils',
+            'rsatoolbox.util.descriptor_utils']
+    for (R, P, nc) in shapes:
+        X = symarray('x', (R, P))
+        for miss in (None, 1):
+            D = X.copy()
+            avail = [k for k in range(P) if k != miss]
+            if miss is not None:
+                D[:, miss] = float('nan')
+            for mod, mname in ((pl, 'util.pooling.pool_rdm'), (iu, 'inference_util.pool_rdm')):
+                for method in ('euclid', 'cosine'):
+                    nm = f'C07/{mname}/B/pooling-contract[{method},{R}x{P},missing={miss}]'
+                    with guard(run, nm):
+                        rd = RDMs.__new__(RDMs)
+                        rd.dissimilarities = D.copy()
+                        rd.n_rdm, rd.n_cond = R, nc
+                        rd.descriptors, rd.dissimilarity_measure = {}, 'x'
+                        rd.rdm_descriptors = {'index': list(range(R))}
+                        rd.pattern_descriptors = {'index': list(range(nc))}
+                        with patched_np(mods):
+                            out = mod.pool_rdm(rd, method=method)
+                        got = np.asarray(out.dissimilarities)[0]
+                        if method == 'euclid':
+                            want = [sum(X[r, j] for r in range(R)) / R for j in range(P)]
+                        else:
+                            want = [sum(X[r, j] / sp.sqrt(sum(X[r, k] ** 2 for k in avail) / len(avail)) for r in range(R)) / R
+                                    for j in range(P)]
+                        want = np.array([float('nan') if j == miss else w for j, w in enumerate(want)], dtype=object)
+                        ok, idx, diff = identical(got, want)
+                        n_eval += 1
+                        run.obligation(nm, 'proved' if ok else 'refuted', 'sympy-normal-form', 0.0,
+                                       detail='pooled RDM == mean of the (RMS-normalised) vectors over the available entries, NaN where '
+                                              'missing' if ok else f'differs at {idx}: {str(diff)[:200]}')
+                        if not ok:
+                            fails.append((nm, 'post', dict(shape=[R, P], method=method, missing=miss, index=str(idx),
+                                                           difference=str(diff)[:300])))
+    for o in sorted(OVERRIDES_USED):
+        run.trust('engine B proxy override: ' + o)
+    run.bounded_check('C07/B/pooling-contract', 'B', 'all real dissimilarities; stacks %s (RDMs x entries x conditions), complete and '
+                      'with one commonly missing entry; methods euclid, cosine; both pool_rdm implementations' % shapes,
+                      n_eval, n_eval, exhaustive=False, failures=len(fails))
+    return fails
+
+
 def run(run):
     E = new_engine(run)
     fails = []
@@ -191,6 +249,7 @@ def run(run):
         fails += ck.failed
     finish_engine(E5, run)
     lean_lemmas(run)
+    fails += tier_b(run, run.tier == 'thorough')
     bds = []
     try:
         from contracts import C07_c
